@@ -19,10 +19,11 @@ const (
 	kStr kind = iota
 	kBool
 	kNum
-	kList // list(string), 2 elements
-	kMap  // map(string), keys a,b
-	kObj  // object {a = string, b = bool}
-	kTup  // tuple [string, bool]
+	kList   // list(string), 2 elements
+	kMap    // map(string), keys a,b
+	kObj    // object {a = string, b = bool}
+	kTup    // tuple [string, bool]
+	kKeyObj // (C19 only) a marked object whose attribute NAME is the secret
 )
 
 // shape: an expression over the special variable `s` (of kind k) and the public
@@ -101,8 +102,8 @@ func newContent(slen int) content {
 	var c content
 	c.s1, c.s2 = vf.Str(slen), vf.Str(slen)
 	for i := 0; i < slen; i++ {
-		vf.Assume(c.s1[i] >= 0x20 && c.s1[i] < 0x7f)
-		vf.Assume(c.s2[i] >= 0x20 && c.s2[i] < 0x7f)
+		vf.Assume(c.s1[i]-0x20 < 0x5f) // printable ASCII, as one comparison (no short-circuit fork)
+		vf.Assume(c.s2[i]-0x20 < 0x5f)
 	}
 	c.b = vf.Bool()
 	c.u = vf.Bool()
